@@ -120,7 +120,10 @@ func deepCopy(x interface{}) (interface{}, error) {
 // overflows the stack - which terminates the process - on a value
 // that is several hundred thousand levels deep, and a script can
 // build one in no time.
-const MaxDepth = 10000
+//
+// The limit leaves some room for what hosts wrap around bindings and
+// messages (a state, a machine, a crew, a result ...).
+const MaxDepth = 10000 - 100
 
 // tooDeep reports whether x (maps and arrays as Export gives them) is
 // nested deeper than the given number of levels.
